@@ -14,6 +14,8 @@ MODULES = ["FlVerif.Props.C01"]
 NAMESPACE = "C01"
 TIE_A = ["Norm.", "Hedge.", "Term.", "code:fuzzylite.engine.Engine.process",
          "code:fuzzylite.rule.Antecedent.activation_degree"]
+TIE_A += ["code:fuzzylite.engine.Engine.infer_type", "code:fuzzylite.variable.Variable.highest_membership",
+          "code:fuzzylite.variable.Variable.fuzzify"]
 RULE = ("engines generated from the registered classes (1-3 inputs, 1-2 outputs, 1-2 rule blocks, nested and/or antecedents "
         "with hedges and `any`, rule weights, enabled/disabled rules, blocks and variables, output variables in antecedents, "
         "Mamdani / Takagi-Sugeno / Tsukamoto outputs, every activation method in scalar mode) x input rows (interior, range "
